@@ -378,6 +378,14 @@ class CInterp:
             if isinstance(a[0], FV):
                 return FV([abs(x) for x in a[0].v])
             return abs(a[0])
+        if name in ("cbrt", "cbrtf"):
+            if not is_sym(a[0]):
+                import math
+                return math.copysign(abs(a[0]) ** (1.0 / 3.0), a[0])
+            t = rterm(a[0])
+            cb = z3.Function("cbrt", z3.RealSort(), z3.RealSort())(t)
+            self.ex.assume(cb * cb * cb == t)  # libm axiom (ground instance): the real cube root
+            return SReal(cb)
         if name in ("acosf", "acos"):
             return npreal.r_acos(a[0])
         if name in ("cosf", "cos"):
@@ -569,6 +577,10 @@ class CInterp:
                 v = self.coerce(v, qt)
             else:
                 v = FV([None] * 4) if "fvec4" in qt else (StdVector() if ("vector" in qt and "iterator" not in qt) else None)
+                plain = qt.replace("struct ", "").strip()
+                if plain in getattr(self, "struct_types", {}):
+                    # an uninitialised local C struct: fields hold nothing until assigned
+                    v = StructObj(plain, **{f: None for f in self.struct_types[plain]})
             if self.decl_hook:
                 v = self.decl_hook(self, env, d.get("name"), v)
             env[d["id"]] = v
@@ -1240,6 +1252,8 @@ class CInterp:
         rname = qt.replace("const ", "").replace("struct ", "").strip()
         if rname in getattr(self, "records", {}):
             return self.construct_record(rname, args)
+        if rname in getattr(self, "struct_types", {}) and not args:
+            return StructObj(rname, **{f: None for f in self.struct_types[rname]})  # trivial default construction of a C struct
         if "deque" in qt and not args:
             return StdVector()
         if "iterator" in qt and len(args) == 1 and isinstance(args[0], (MapIter, VecIter)):
